@@ -62,19 +62,23 @@ theorem past_send_run (b c : Bool) : ∀ (as : List Act) (s s' : St), runG b c s
 
 /-- one step while the closer is blocked: it is released (`closeConn`), or it is still blocked and the measure did not
     grow — and it shrank when the step was the heartbeat goroutine's -/
-theorem mu_step (s s' : St) (a : Act) (h : Inv false s) (hc : s.cl = .sending) (hs : step s a = some s') :
+theorem mu_stepG (c : Bool) (s s' : St) (a : Act) (h : Inv c s) (hc : s.cl = .sending) (hs : stepG false c s a = some s') :
     s'.cl = .closeConn ∨ (s'.cl = .sending ∧ (if hbAct s a then 1 else 0) + mu s' ≤ mu s) := by
-  obtain ⟨h1, h2, h3, h4, h5, h6, h7, h8, _⟩ := h
+  obtain ⟨h1, h2, h3, _, _, _, _, _, _⟩ := h
   obtain ⟨st, hb, cl, rc⟩ := s
   simp only at hc; subst hc
   have hst := (h1 rfl).1
   simp only at hst; subst hst
-  cases a <;> simp only [step, stepG] at hs <;> (repeat' split at hs) <;>
+  cases a <;> simp only [stepG] at hs <;> (repeat' split at hs) <;>
     (first
       | (simp at hs; done)
       | (injection hs with hs; subst hs; simp_all [mu, hbAct] <;> (cases hb <;> simp_all) <;> omega))
 
-theorem mu_run : ∀ (as : List Act) (s s' : St), Inv false s → s.cl = .sending → run s as = some s' → s'.cl = .sending →
+theorem mu_step (s s' : St) (a : Act) (h : Inv true s) (hc : s.cl = .sending) (hs : step s a = some s') :
+    s'.cl = .closeConn ∨ (s'.cl = .sending ∧ (if hbAct s a then 1 else 0) + mu s' ≤ mu s) :=
+  mu_stepG true s s' a h hc hs
+
+theorem mu_run : ∀ (as : List Act) (s s' : St), Inv true s → s.cl = .sending → run s as = some s' → s'.cl = .sending →
     hbSteps s as + mu s' ≤ mu s
   | [], s, s', _, _, hr, _ => by simp [run, runG] at hr; subst hr; simp [hbSteps]
   | a :: as, s, s', h, hc, hr, hc' => by
@@ -83,16 +87,16 @@ theorem mu_run : ∀ (as : List Act) (s s' : St), Inv false s → s.cl = .sendin
     · rename_i s1 hs1
       have hs1' : step s a = some s1 := hs1
       rcases mu_step s s1 a h hc hs1' with h1 | ⟨h1, h2⟩
-      · have := past_send_run false false as s1 s' hr (Or.inl h1)
+      · have := past_send_run false true as s1 s' hr (Or.inl h1)
         rcases this with h | h <;> simp [h] at hc'
-      · have ih := mu_run as s1 s' (inv_step false s s1 a h hs1) h1 hr hc'
+      · have ih := mu_run as s1 s' (inv_step true s s1 a h hs1) h1 hr hc'
         simp only [hbSteps, hs1']
         omega
     · simp at hr
 
 /-- while the closer is blocked the heartbeat goroutine can move -/
-theorem hb_enabled (s : St) (h : Inv false s) (hc : s.cl = .sending) : ∃ a, hbAct s a = true ∧ (step s a).isSome = true := by
-  obtain ⟨h1, h2, h3, h4, h5, h6, h7, h8, _⟩ := h
+theorem hb_enabled (s : St) (h : Inv true s) (hc : s.cl = .sending) : ∃ a, hbAct s a = true ∧ (step s a).isSome = true := by
+  obtain ⟨h1, h2, h3, _, _, _, _, _, _⟩ := h
   obtain ⟨st, hb, cl, rc⟩ := s
   simp only at hc; subst hc
   rcases (h1 rfl).2 with h | h | h <;> simp only at h <;> subst h
@@ -104,24 +108,24 @@ theorem hb_enabled (s : St) (h : Inv false s) (hc : s.cl = .sending) : ∃ a, hb
     | zero => exact ⟨.rcDone, by simp [hbAct], by simp [step, stepG]⟩
     | succ k => exact ⟨.rcStep, by simp [hbAct], by simp [step, stepG]⟩
 
-/-- the heartbeat goroutine started after close() gave up its CAS runs for good (code that exists) -/
+/-- OLD close() (CAS, before the repair of KF-C17-4): the heartbeat goroutine started after close() gave up its CAS runs for good -/
 structure Late (s : St) : Prop where
   cl : s.cl = .done
   st : s.state = .started
   hb : s.hb = .select ∨ s.hb = .beat ∨ s.hb = .inReconn
 
-theorem late_step (s s' : St) (a : Act) (h : Late s) (hs : step s a = some s') : Late s' := by
+theorem late_step (s s' : St) (a : Act) (h : Late s) (hs : stepG false false s a = some s') : Late s' := by
   obtain ⟨h1, h2, h3⟩ := h
   obtain ⟨st, hb, cl, rc⟩ := s
-  cases a <;> simp only [step, stepG] at hs <;> (repeat' split at hs) <;>
+  cases a <;> simp only [stepG] at hs <;> (repeat' split at hs) <;>
     (first
       | (simp at hs; done)
       | (injection hs with hs; subst hs; constructor <;> simp_all))
 
-theorem late_run : ∀ (as : List Act) (s s' : St), Late s → run s as = some s' → Late s'
-  | [], s, s', h, hr => by simp [run, runG] at hr; subst hr; exact h
+theorem late_run : ∀ (as : List Act) (s s' : St), Late s → runG false false s as = some s' → Late s'
+  | [], s, s', h, hr => by simp [runG] at hr; subst hr; exact h
   | a :: as, s, s', h, hr => by
-    simp only [run, runG] at hr
+    simp only [runG] at hr
     split at hr
     · rename_i s1 hs1; exact late_run as s1 s' (late_step s s1 a h hs1) hr
     · simp at hr
